@@ -39,10 +39,11 @@ theorem header_type {bs : List UInt8} {m : Msg} (h : HasHeader bs m) :
   obtain ⟨rest, hr⟩ := h
   unfold Msg.get; rw [hr]; rfl
 
-theorem dispatch_kind (cfg : Cfg) (bs : List UInt8) (m : Msg)
-    (h : Spec.dispatch cfg (field bs 0 6) bs = ok m) :
-    some m.kind = kindOf (field bs 0 6) ∧ HasHeader bs m := by
-  generalize ht : field bs 0 6 = t at h
+/-- Whichever decoder is selected (by the payload's own six bits, or by a caller addressing a per-type decoder
+    directly), a decoded message has that decoder's kind and starts with the header read from the payload. -/
+theorem dispatch_kind_gen (cfg : Cfg) (t : Nat) (bs : List UInt8) (m : Msg)
+    (h : Spec.dispatch cfg t bs = ok m) :
+    some m.kind = kindOf t ∧ HasHeader bs m := by
   unfold Spec.dispatch at h
   unfold kindOf
   simp only [] at h
@@ -138,6 +139,10 @@ theorem dispatch_kind (cfg : Cfg) (bs : List UInt8) (m : Msg)
   rw [if_neg c20] at h; rw [if_neg c20]
   cases h
 
+theorem dispatch_kind (cfg : Cfg) (bs : List UInt8) (m : Msg)
+    (h : Spec.dispatch cfg (field bs 0 6) bs = ok m) :
+    some m.kind = kindOf (field bs 0 6) ∧ HasHeader bs m := dispatch_kind_gen cfg _ bs m h
+
 /-- **C09, first half.** A decoded message has the kind the table assigns to the first six payload
     bits, and its own type field equals those six bits. -/
 theorem parse_kind (cfg : Cfg) (bs : List UInt8) (m : Msg) (h : parseMessage cfg bs = ok m) :
@@ -146,6 +151,22 @@ theorem parse_kind (cfg : Cfg) (bs : List UInt8) (m : Msg) (h : parseMessage cfg
   unfold Spec.decode at h
   have h2 := (ite_eof_ok h).2
   have := dispatch_kind cfg bs m h2
+  exact ⟨this.1, header_type this.2⟩
+
+/-- The per-type public decoders (`<Type as AisMessageType>::parse`, model `parseAs`) are the arms of the dispatch. -/
+theorem parseAs_eq (cfg : Cfg) (t : Nat) (bs : List UInt8) : parseAs cfg t bs = Spec.dispatch cfg t bs := by
+  unfold parseAs Spec.dispatch
+  simp only [parseT01_eq, parseT04, parseT11, parseT07, parseT13, parseBaseStation_eq, parseT09_eq, parseT05_eq,
+    parseAckMsg_eq, parseT06_eq, parseT08_eq, parseT10_eq, parseT12_eq, parseT14_eq, parseT15_eq, parseT16_eq,
+    parseT17_eq, parseT18_eq, parseT19_eq, parseT20_eq, parseT21_eq, parseT24_eq, parseT27_eq,
+    Spec.capped, Spec.eof]
+
+/-- A message reported by a per-type decoder — even one handed another type's payload — has that decoder's kind, and
+    its own type field is the first six bits of the payload it was given. -/
+theorem parseAs_kind (cfg : Cfg) (t : Nat) (bs : List UInt8) (m : Msg) (h : parseAs cfg t bs = ok m) :
+    some m.kind = kindOf t ∧ m.get .message_type = some (.nat (field bs 0 6)) := by
+  rw [parseAs_eq] at h
+  have := dispatch_kind_gen cfg t bs m h
   exact ⟨this.1, header_type this.2⟩
 
 /-- `messages::parse` never panics (also used by C01). -/
